@@ -101,7 +101,7 @@ func runSchedules(a CLIArgs) int {
 				act = Action{Op: "ERSReconcile", Key: Key, T: sf.Tmpls[i-1]}
 			case "Tick":
 				act = Action{Op: "Tick", V: "1"}
-			case "KReady", "KFinish", "KUnready", "KFail", "KRestart":
+			case "KReady", "KFinish", "KUnready", "KFail", "KRestart", "KLost":
 				act = Action{Op: p[0], N: str(1), I: num(2), V: "Error"}
 			case "ForeignPod":
 				act = Action{Op: "ForeignPod", Key: Key, N: str(1), V: "dup"}
